@@ -16,11 +16,13 @@ EXTENDS History, TraceBase
 \*    18 withctx{a} 19 noctx{a}
 \* - a method that is re-created before every call (the old function object is dropped, its memory may be reused):
 \*    20 tmp := f(x), tmp{x}   21 tmp := f(y, z=0), tmp{y}   22 tmp := f(x), tmp{y}
+\* - the same function name and signature conv(n: int) under TWO validator objects (coercing / strict):
+\*    23 lax.conv("5") 24 strict.conv("5") 25 lax.conv(5) 26 strict.conv(5)
 TwinOutcome == <<"int", "str", "invalid", "invalid", "int", "str", "invalid", "invalid",
                  "ok", "ok", "invalid", "invalid", "ctx", "pong", "ctx2", "invalid", "a_and_5", "a_and_ctx", "a_and_none",
-                 "ok", "ok", "invalid">>
+                 "ok", "ok", "invalid", "int", "invalid", "int", "int">>
 TraceInit == tid \in 1..NTraces /\ l = 1 /\ InitWith("typed")
-TCall == IsEvent("Call") /\ E.c \in 1..22 /\ Serve(E.c) /\ E.outcome = TwinOutcome[E.c]
+TCall == IsEvent("Call") /\ E.c \in 1..26 /\ Serve(E.c) /\ E.outcome = TwinOutcome[E.c]
 TraceNext == TCall
 TraceConstraint == NothingRetained /\ Progress
 =============================================================================
